@@ -11,6 +11,7 @@ Oracle: what the real code returned is handed to the Lean *specification*
 predicates (`spec value|status|bit|str|ctor`, Spec/Response.lean); a result
 the specification rejects is a violation with the concrete class / outcome /
 accessor."""
+from common import exc_name  # noqa: E402
 import enum
 import re
 
@@ -79,7 +80,7 @@ def observe(fn, fr):
     try:
         return canon(fn(), fr)
     except Exception as e:  # noqa
-        return "err " + type(e).__name__
+        return "err " + exc_name(e)
 
 
 VOLTS = re.compile(r"^(-?[0-9][0-9.e+-]*) V$")
@@ -89,7 +90,7 @@ def observe_str(r, fval, fr):
     try:
         s = str(r)
     except Exception as e:  # noqa
-        return "err " + type(e).__name__
+        return "err " + exc_name(e)
     m = VOLTS.match(s)
     if m and fval is not None:
         try:
@@ -147,7 +148,7 @@ def evaluate(cls, key, d, fr, model, corr, only=None):
             r = cls(fval)
         except Exception as e:  # noqa
             viol.append(("resp:%s:ctor:%s" % (cls.__name__, okind(otok)), {"class": key, "outcome": otok,
-                         "accessor": "ctor"}, "accepted", "err " + type(e).__name__))
+                         "accessor": "ctor"}, "accepted", "err " + exc_name(e)))
             continue
         raw = r.raw_value
         if raw is not fval:
@@ -236,7 +237,7 @@ def evaluate(cls, key, d, fr, model, corr, only=None):
             try:
                 got = look(mk())
             except Exception as e:  # noqa
-                got = ("err " + type(e).__name__,)
+                got = ("err " + exc_name(e),)
             if got != base:
                 viol.append(("resp:%s:copied:%s" % (cls.__name__, okind(otok)),
                              {"class": key, "outcome": otok, "accessor": "value/str/status/error/raw_value via " + rname},
@@ -271,7 +272,7 @@ def ctor_checks(table, fr, model, corr):
                 cls(v)
                 a = "ok"
             except Exception as e:  # noqa
-                a = "err " + type(e).__name__
+                a = "err " + exc_name(e)
             req.append("ctor " + t); impl.append(a)
             if a != "err TypeError":
                 viol.append(("resp:%s:ctor:nonframe" % cls.__name__, {"class": key, "accessor": "ctor", "arg": t},
